@@ -1,6 +1,4 @@
-//go:build ignore
-
-package eng
+package mirroreng
 
 // History generation of the `mirror` engine: the add-entries request builder (with every framing cut
 // and content mutation of spec §4), fault planners, the client loop, and the scenario families.
@@ -9,6 +7,7 @@ import (
 	"bytes"
 	"compress/gzip"
 	"encoding/binary"
+	"filippo.io/sunlight/verifharness/internal/eng"
 	"fmt"
 
 	"filippo.io/torchwood"
@@ -386,7 +385,7 @@ func mirrorFaultOne(step string, pk int, field string, pos int, out mirrorOut) m
 }
 
 // mirrorFaultRandom injects each fault independently with probability pct/100.
-func mirrorFaultRandom(r *Rand, pct int) mirrorFaulter {
+func mirrorFaultRandom(r *eng.Rand, pct int) mirrorFaulter {
 	out := func() mirrorOut {
 		if r.Chance(pct) {
 			return mirrorOut(1 + r.Intn(2))
@@ -579,6 +578,16 @@ func (w *mirrorWorld) famBasic() {
 		if w.r.Chance(20) {
 			w.probe(lg)
 		}
+		if w.r.Chance(30) && nxt > cur {
+			w.run(&mirrorSpec{Log: lg, Start: nxt, End: nxt}) // commit of entries that were never uploaded
+		}
+		if w.r.Chance(20) && nxt > cur+1 {
+			st := cur + 1 + int64(w.r.Intn(int(nxt-cur-1)))
+			if b := cur - cur%256 + 256; b < nxt && w.r.Bool() {
+				st = b
+			}
+			w.run(&mirrorSpec{Log: lg, Start: st, End: nxt}) // upload that skips entries
+		}
 		s := &mirrorSpec{Log: lg, Start: w.mirrorN(lg), End: nxt}
 		if w.r.Chance(15) {
 			s.Gzip = "ok"
@@ -624,6 +633,7 @@ func (w *mirrorWorld) famRanges(big bool) {
 	if big {
 		w.upload(lg, w.next(lg), p2) // next entry far from 0: the window matters
 	}
+	w.run(&mirrorSpec{Log: lg, Start: p2, End: p2}) // pure commit at the pending size, whatever the next entry is
 	n := 8 + w.r.Intn(7)
 	for i := 0; i < n; i++ {
 		nx := w.next(lg)
@@ -659,6 +669,9 @@ func (w *mirrorWorld) famRanges(big bool) {
 			s.Start = nx
 		case 1:
 			s.Start = nx + 1 + int64(w.r.Intn(300))
+			if w.r.Bool() {
+				s.Start = nx - nx%256 + 256*int64(1+w.r.Intn(2)) // a tile boundary beyond the next entry
+			}
 		case 2:
 			s.Start = max(0, nx-int64(w.r.Intn(300)))
 		case 3:
@@ -831,8 +844,9 @@ func (w *mirrorWorld) famInterleave(variant int) {
 		p2 := w.pick(p1+300, min(p1+700, top))
 		w.grow(lg, p2)
 		if r.info != nil {
-			a := w.beginSpec(&mirrorSpec{Log: lg, Start: r.infoNx, End: p1, Ticket: r.info.bytes, Cut: "in-hash", CutPk: mirrorNumPk(r.infoNx, p1) - 1})
-			for a.state == mirrorParkedPkg && a.pkg < mirrorNumPk(r.infoNx, p1)-1 {
+			np := mirrorNumPk(0, p1)
+			a := w.beginSpec(&mirrorSpec{Log: lg, Start: 0, End: p1, Ticket: r.info.bytes, Cut: "in-hash", CutPk: np - 1})
+			for a.state == mirrorParkedPkg && a.pkg < np-1 {
 				w.advance(a)
 			}
 			w.run(&mirrorSpec{Log: lg, Start: r.infoNx, End: p2, MaxPk: mirrorNumPk(r.infoNx, p2) - 1})
@@ -845,17 +859,29 @@ func (w *mirrorWorld) famInterleave(variant int) {
 			m := w.pick(1, p-1)
 			w.run(&mirrorSpec{Log: lg, Start: 0, End: p, MaxPk: mirrorNumPk(0, m)})
 		}
+		tkOld, _ := w.probe(lg)
+		pOld := p
+		if w.r.Bool() && p < top {
+			p = w.pick(p+1, min(p+400, top))
+			w.grow(lg, p)
+		}
 		nx := w.next(lg)
 		k := 2 + w.r.Intn(2)
+		if w.c.Idx%4 >= 2 {
+			k = 3
+		}
 		for i := 0; i < k; i++ {
 			s := &mirrorSpec{Log: lg, Start: nx, End: p}
+			if pOld != p && tkOld != nil && nx <= pOld && w.r.Chance(40) {
+				s.End, s.Ticket = pOld, tkOld.bytes // resolved through the ticket: an older checkpoint
+			}
 			switch w.r.Intn(4) {
 			case 0:
 				s.Start = max(0, nx-int64(w.r.Intn(300)))
 			case 1:
 				s.Start = nx - nx%256
 			case 2:
-				if np := mirrorNumPk(nx, p); np > 1 {
+				if np := mirrorNumPk(s.Start, s.End); np > 1 {
 					s.MaxPk = 1 + w.r.Intn(np-1)
 				}
 			}
@@ -1073,8 +1099,8 @@ func (w *mirrorWorld) famFaults(fc mirrorFaultCase) {
 		p2 := w.pick(p1+300, min(p1+700, top))
 		w.grow(lg, p2)
 		if r.info != nil {
-			np := mirrorNumPk(r.infoNx, p1)
-			a := w.beginSpec(&mirrorSpec{Log: lg, Start: r.infoNx, End: p1, Ticket: r.info.bytes, Cut: "at-numhashes", CutPk: np - 1,
+			np := mirrorNumPk(0, p1)
+			a := w.beginSpec(&mirrorSpec{Log: lg, Start: 0, End: p1, Ticket: r.info.bytes, Cut: "at-numhashes", CutPk: np - 1,
 				F: mirrorFaultOne("pkg", np-1, "fp", 0, 0)})
 			for a.state == mirrorParkedPkg && a.pkg < np-1 {
 				w.advance(a)
